@@ -1394,4 +1394,179 @@ theorem hasNewline_trim (c : List Char) (h : hasNewline c = false) : hasNewline 
     have h2 : '\n' ∈ c := (List.dropWhile_suffix isWhitespace).subset h1
     simp [hasNewline, h2] at h
 
+/-! ### The two embedding oracles are implied by the structure -/
+
+/-- `xs` occur in `s` as disjoint substrings, in this order. -/
+inductive Embeds : List (List Char) → List Char → Prop where
+  | nil (s : List Char) : Embeds [] s
+  | cons (g x : List Char) (xs : List (List Char)) (s : List Char) :
+      Embeds xs s → Embeds (x :: xs) (g ++ x ++ s)
+
+theorem Embeds.extend {xs : List (List Char)} {t : List Char} (u : List Char) (h : Embeds xs t) :
+    Embeds xs (u ++ t) := by
+  cases h with
+  | nil => exact .nil _
+  | cons g x xs s h' =>
+    have : u ++ (g ++ x ++ s) = (u ++ g) ++ x ++ s := by simp [List.append_assoc]
+    rw [this]
+    exact .cons (u ++ g) x xs s h'
+
+theorem Embeds.append {a b : List (List Char)} {s t : List Char} (h1 : Embeds a s) (h2 : Embeds b t) :
+    Embeds (a ++ b) (s ++ t) := by
+  induction h1 with
+  | nil s => exact h2.extend s
+  | cons g x xs s' _ ih =>
+    have : g ++ x ++ s' ++ t = g ++ x ++ (s' ++ t) := by simp [List.append_assoc]
+    rw [List.cons_append, this]
+    exact .cons g x _ _ ih
+
+theorem Embeds.append_right {a : List (List Char)} {s : List Char} (t : List Char) (h : Embeds a s) :
+    Embeds a (s ++ t) := by
+  simpa using h.append (.nil t)
+
+theorem Embeds.single (x : List Char) : Embeds [x] x := by
+  simpa using Embeds.cons [] x [] [] (.nil [])
+
+theorem dropThrough_sound (x : List Char) :
+    ∀ (s r : List Char), dropThrough x s = some r → ∃ g, s = g ++ x ++ r := by
+  intro s
+  induction s with
+  | nil =>
+    intro r h
+    simp only [dropThrough] at h
+    split at h
+    · rename_i hx
+      simp only [Option.some.injEq] at h
+      subst h
+      exact ⟨[], by simpa using hx⟩
+    · simp at h
+  | cons c cs ih =>
+    intro r h
+    simp only [dropThrough] at h
+    split at h
+    · rename_i hp
+      simp only [Option.some.injEq] at h
+      obtain ⟨t, ht⟩ := List.isPrefixOf_iff_prefix.mp hp
+      refine ⟨[], ?_⟩
+      rw [← ht] at h ⊢
+      simp only [List.drop_left] at h
+      subst h
+      simp
+    · obtain ⟨g, hg⟩ := ih r h
+      exact ⟨c :: g, by simp [hg]⟩
+
+theorem dropThrough_complete (x r : List Char) :
+    ∀ g : List Char, ∃ u, dropThrough x (g ++ x ++ r) = some (u ++ r) := by
+  intro g
+  induction g with
+  | nil =>
+    cases hxr : x ++ r with
+    | nil =>
+      have hx : x = [] := (List.append_eq_nil_iff.mp hxr).1
+      have hr : r = [] := (List.append_eq_nil_iff.mp hxr).2
+      subst hx hr
+      exact ⟨[], by simp [dropThrough]⟩
+    | cons c cs =>
+      refine ⟨[], ?_⟩
+      simp only [List.nil_append, hxr, dropThrough]
+      have hp : x.isPrefixOf (c :: cs) = true := by
+        rw [← hxr]; exact List.isPrefixOf_iff_prefix.mpr (List.prefix_append x r)
+      simp only [hp, ↓reduceIte, Option.some.injEq]
+      rw [← hxr, List.drop_left]
+  | cons a g' ih =>
+    simp only [List.cons_append, dropThrough]
+    split
+    · refine ⟨List.drop x.length (a :: (g' ++ x)), ?_⟩
+      have hlen : x.length ≤ (a :: (g' ++ x)).length := by simp; omega
+      have : a :: (g' ++ x ++ r) = (a :: (g' ++ x)) ++ r := by simp
+      rw [this, List.drop_append_of_le_length hlen]
+    · simpa [List.append_assoc] using ih
+
+theorem occursInOrder_extend :
+    ∀ (xs : List (List Char)) (r u : List Char), occursInOrder xs r = true →
+      occursInOrder xs (u ++ r) = true := by
+  intro xs
+  induction xs with
+  | nil => intro r u _; rfl
+  | cons x xs ih =>
+    intro r u h
+    simp only [occursInOrder] at h ⊢
+    split at h
+    · rename_i r1 hr1
+      obtain ⟨g, hg⟩ := dropThrough_sound x r r1 hr1
+      obtain ⟨u', hu'⟩ := dropThrough_complete x r1 (u ++ g)
+      have : u ++ r = u ++ g ++ x ++ r1 := by rw [hg]; simp [List.append_assoc]
+      rw [this, hu']
+      exact ih r1 u' h
+    · simp at h
+
+/-- The leftmost matching of `occursInOrder` finds an embedding whenever there is one. -/
+theorem occursInOrder_of_embeds {xs : List (List Char)} {s : List Char} (h : Embeds xs s) :
+    occursInOrder xs s = true := by
+  induction h with
+  | nil s => rfl
+  | cons g x xs s' _ ih =>
+    obtain ⟨u, hu⟩ := dropThrough_complete x s' g
+    simp only [occursInOrder, hu]
+    exact occursInOrder_extend xs s' u ih
+
+theorem embeds_items (ps : List Piece) : Embeds (itemTexts ps) (render ps) := by
+  induction ps with
+  | nil => exact .nil _
+  | cons p ps ih =>
+    rw [render_cons]
+    by_cases hk : p.kind = .item
+    · have : itemTexts (p :: ps) = p.text :: itemTexts ps := by simp [itemTexts, hk]
+      rw [this]
+      simpa using Embeds.cons [] p.text _ _ ih
+    · have : itemTexts (p :: ps) = itemTexts ps := by simp [itemTexts, hk]
+      rw [this]
+      exact ih.extend _
+
+theorem embeds_opt (o : Option (List Char)) :
+    Embeds (o.toList.map squeeze) (squeeze (o.getD [])) := by
+  cases o with
+  | none => exact .nil _
+  | some c => exact Embeds.single _
+
+theorem embeds_itemContent (f : ListFormatting) (sp : SeparatorPlace) (i : Nat) (last : Bool)
+    (item : ListItem) (hs : item.isSubstantial = true) :
+    Embeds ((item.preComment.toList ++ item.postComment.toList).map squeeze)
+      (itemContent f sp i last item) := by
+  unfold itemContent
+  simp only [hs, Bool.not_true, Bool.false_eq_true, ↓reduceIte, List.map_append]
+  have hpre := embeds_opt item.preComment
+  have hpost := embeds_opt item.postComment
+  have htail : ∀ (sepB : List Char), Embeds (item.postComment.toList.map squeeze)
+      (if (f.tactic == DefinitiveListTactic.horizontal) = true then
+        squeeze (item.postComment.getD []) ++ sepB else sepB ++ squeeze (item.postComment.getD [])) := by
+    intro sepB
+    split
+    · exact hpost.append_right _
+    · exact hpost.extend _
+  have h1 := (hpre.append_right
+    (if (separateSpec f sp i last && sp.isFront && i != 0) = true then squeeze f.separator else [])).append_right
+      (squeeze item.innerAsRef)
+  exact h1.append (htail _)
+
+theorem embeds_comments (f : ListFormatting) (sp : SeparatorPlace) :
+    ∀ (items : List ListItem) (i : Nat), Embeds (commentStrings items) (contentGo f sp i items) := by
+  intro items
+  induction items with
+  | nil => intro i; exact .nil _
+  | cons item rest ih =>
+    intro i
+    simp only [contentGo]
+    cases hs : item.isSubstantial with
+    | false =>
+      have : commentStrings (item :: rest) = commentStrings rest := by simp [commentStrings, hs]
+      rw [this]
+      exact (ih (i + 1)).extend _
+    | true =>
+      have : commentStrings (item :: rest) =
+          (item.preComment.toList ++ item.postComment.toList).map squeeze ++ commentStrings rest := by
+        simp [commentStrings, hs]
+      rw [this]
+      exact (embeds_itemContent f sp i rest.isEmpty item hs).append (ih (i + 1))
+
 end RF.Lemmas.Lists
